@@ -4,7 +4,10 @@ from .. import core, machist, macstage, lw
 from .c10 import DRS, FAM
 
 ID = "C09"
-THEOREMS = []   # filled below once Props/C09.v exists
+THEOREMS = ["C09_plan_invariant_initial", "C09_plan_invariant_cflist", "C09_plan_invariant_new_channel", "C09_plan_invariant_dl_channel",
+            "C09_dynamic_data_uplink", "C09_dynamic_join_request", "C09_fixed_data_uplink", "C09_join_data_rates", "C09_dynamic_usable_channel",
+            "C09_fixed_usable_channel", "C09_dynamic_selection_progress", "C09_power_bound",
+            "C09_termination_every_stream_refuted_join", "C09_termination_every_stream_refuted_data"]
 TXRE = re.compile(r"TX pw=(-?\d+) rf=(\d+)/(\d+)/(\d+)/(\d+)")
 SNAP = re.compile(r"dr=(\d+) rx1_delay=(\d+) pw=(-?\d+) rx1off=(\d+) rx2dr=(-?\d+) rx2f=(-?\d+)")
 # RP002, written independently of the implementation
@@ -217,14 +220,20 @@ def gen(rng, tier):
     return lines
 
 
-KNOWN_PROBES = [
-    ("rejection-sampling-degenerate-stream",
-     "mac r=5 p=14 g=0 | otaa 1 2 000102030405060708090a0b0c0d0e0f 7," + ",".join(["3"] * 64),
-     "EU868 join with every channel draw = 3 (>= NUM_JOIN_CHANNELS): the retry loop never terminates"),
-    ("rejection-sampling-degenerate-stream",
-     "mac r=8 p=14 g=0 | abp 01010101010101010101010101010101 02020202020202020202020202020202 1 | rx {la} 0 250 | send 01 1 0 " + ",".join(["5"] * 64),
-     "US915 data uplink with mask = {{channel 0, 1}} and every draw = 5: the retry loop never terminates"),
-]
+LA01 = None
+
+
+def known_probes():
+    """degenerate random streams: every draw misses although a usable channel exists (known finding rejection-sampling-degenerate-stream)"""
+    nwk, app = bytes([1] * 16), bytes([2] * 16)
+    la = lw.data_frame(3, 1, 0, 0, machist.link_adr(15, 15, 0x0003, 0) + machist.link_adr(15, 15, 0x0000, 1)[0:0], None, b"", nwk, app)
+    la7 = lw.data_frame(3, 1, 0, 0, machist.link_adr(15, 15, 0x0000, 7) + machist.link_adr(15, 15, 0x0003, 0), None, b"", nwk, app)
+    return [
+        ("mac r=5 p=14 g=0 | otaa 1 2 000102030405060708090a0b0c0d0e0f 7," + ",".join(["3"] * 64),
+         "EU868 join request with every channel draw = 3 (>= NUM_JOIN_CHANNELS)"),
+        ("mac r=8 p=14 g=0 | abp %s %s 1 | send 01 1 0 %s | rx %s 0 250 | snap | send 01 1 0 %s" % (nwk.hex(), app.hex(), ",".join(["1"] * 8), la7.hex(), ",".join(["5"] * 64)),
+         "US915 data uplink with only channels 0 and 1 enabled and every channel draw = 5"),
+    ]
 
 
 def run(rep, tier, rng):
@@ -235,6 +244,17 @@ def run(rep, tier, rng):
     lines = gen(rng, tier)
     core.diff_stage(rep, "X:C09:mac-histories(tx)", lines, macstage.make_judge([], extra=oracle))
     macstage.oracle_pass(rep, lines, [], extra=oracle)
+    # known finding: the literal "every random stream"
+    known = core.load_known(ID)
+    probes = known_probes()
+    po = core.run_lines(core.harness_bin(), [c for c, _ in probes])
+    for (c, what), o in zip(probes, po):
+        if o.split(" ; ")[-1] == "HANG":
+            if "rejection-sampling-degenerate-stream" in known:
+                rep.known("id=rejection-sampling-degenerate-stream %s: the retry loop keeps drawing (theorems C09_termination_every_stream_refuted_*)" % what)
+            else:
+                rep.violation({"kind": "channel selection does not terminate on a random stream that never hits a usable channel", "case": c, "impl_output": o[-300:]}, concrete=True)
+    rep.cov["known_finding_probes"] = len(probes)
     rep.cov["rule"] = ("9 regions x board power {0..255} x antenna gain {-128..127} x join bias x histories of JoinAccept CFLists (empty / 500 kHz only / single channel / random / out of band), "
                        "LinkADRReq blocks (all ChMaskCntl, data rates, powers), NewChannelReq create/remove, DlChannelReq, set_datarate, ADR back-off points; a state snapshot before and after "
                        "every transmission; from every 3rd/6th reached state all 64 outcomes of the first channel draw; judged by band / channel-map / data-rate / power rules written from RP002")
